@@ -43,7 +43,7 @@ theorem ginv_empty (W : Colls) (hfresh : ∀ C, W.mem C → C.uid ≠ 0) : GInv 
 /-- **one `aggregate` call keeps the invariant** -/
 theorem ginv_step {W : Colls} {seen : List (Req × Forest)} {s s' : AggState} (hG : GInv W seen s)
     {r : Req} {G : Forest} (hr : FlatReq r G) (hW : W.mem r.2.1)
-    (hfresh : ∀ p, p ∈ seen → p.1.2.1.uid ≠ r.2.1.uid)
+    (hfresh : r.1 ∉ seen.map (·.1.1) → ∀ p, p ∈ seen → p.1.2.1.uid ≠ r.2.1.uid)
     (h : aggregate r.1 r.2.1 r.2.2 s = .ok ((), s')) : GInv W ((r, G) :: seen) s' := by
   obtain ⟨name, types, kind⟩ := r
   simp only at hr hW hfresh h
@@ -72,6 +72,16 @@ theorem ginv_step {W : Colls} {seen : List (Req × Forest)} {s s' : AggState} (h
       simp only [bind_ok, run_getAgg, Except.ok.injEq, Prod.mk.injEq] at h
       obtain ⟨k', s1, hrm, _, _, ⟨rfl, rfl⟩, h⟩ := h
       have hN' := hN.fresh k' hg hf
+      -- the name has not been seen: otherwise it would be imported or redirected to its track's import
+      have hunseen : name ∉ seen.map (·.1.1) := by
+        intro hs
+        rcases hN.seen name hs with h1 | h1
+        · rw [hg] at h1; cases h1
+        · obtain ⟨b, hb⟩ := Option.isSome_iff_exists.1 h1
+          obtain ⟨_, hbi, k0, va, vb, hka, hkb, _⟩ := hN.red name b hb
+          obtain ⟨x, hx⟩ := Option.isSome_iff_exists.1 hbi
+          exact findSemver_none hf hka (b, x) (amGet_mem _ _ _ hx) vb hkb
+      have hfresh := hfresh hunseen
       have hself : canon s.agg.redirects name = name := hN'.canon_self (by rw [AggP.amGet_amInsert]; simp)
       obtain ⟨hT1, hi, hrd⟩ := hT.fresh (r := (name, types, kind)) hr hW hfresh hg hrm (cls' := canon s.agg.redirects) hself
         (fun _ _ => rfl)
